@@ -369,6 +369,11 @@ pub fn builtin_avg(arr: Vec<f64>, onEmpty: Option<Thunk<Val>>) -> Result<Val> {
 
 #[builtin]
 pub fn builtin_remove_at(arr: ArrValue, at: i32) -> Result<ArrValue> {
+	// `[arr[i] for i in std.range(0, len - 1) if i != at]`: an index outside of the array removes nothing
+	// (as slice bounds, negative numbers would count from the end).
+	if at < 0 || at as usize >= arr.len() {
+		return Ok(arr);
+	}
 	let newArrLeft = arr.clone().slice(None, Some(at), None);
 	let newArrRight = arr.slice(Some(at + 1), None, None);
 
